@@ -261,6 +261,22 @@ def _diverges_failing(fx, b):
     return rec(b)
 
 
+def _is_interrupted_retry(arm):
+    """`Err(ref e) if e.kind() == ErrorKind::Interrupted => continue` (or an empty body at the end of the loop body)"""
+    from ..facts import walk
+    g = arm.get("guard")
+    if g is None:
+        return False
+    mentions = any((x.get("k") == "Path" and ((x.get("res") or {}).get("variant") == "Interrupted" or str((x.get("res") or {}).get("path", "")).endswith("ErrorKind::Interrupted")))
+                   for x, _ in walk(g))
+    kind_call = any(x.get("k") == "MethodCall" and x.get("name") == "kind" for x, _ in walk(g))
+    body = peel(arm["body"])
+    if body.get("k") == "Block" and not body["block"]["stmts"] and "expr" in body["block"]:
+        body = peel(body["block"]["expr"])
+    is_continue = body.get("k") == "Continue" or (body.get("k") == "Block" and not body["block"]["stmts"] and "expr" not in body["block"]) or (body.get("k") == "Tup" and not body.get("elems"))
+    return mentions and kind_call and is_continue
+
+
 def swallowing_arms(fx, use):
     """For a `matched` use of a Result: the arms / branches that turn Err into normal completion."""
     n = use.node
@@ -268,6 +284,8 @@ def swallowing_arms(fx, use):
     if n.get("k") == "Match":
         for arm in n["arms"]:
             if _pat_covers_err(arm["pat"]) and not _is_failing_value(fx, arm["body"]):
+                if _is_interrupted_retry(arm):
+                    continue      # std's own idiom: an interrupted call did nothing and is simply issued again
                 out.append((arm, "arm `%s` completes normally on Err" % (arm["pat"].get("k"))))
     elif n.get("k") == "Let":  # `if let` / `while let` — parents decide
         pat = n["pat"]
